@@ -60,7 +60,8 @@ def main():
         "the per-node rules of the model abstract parsigdb (C07) and sigagg (C09); consensus agreement (C02) and duty-store uniqueness (C06) are hypotheses of C01_honest_sign_same only",
         "the wiring obligation covers core.Wire and the WireOption constructors of package core; subscribers registered elsewhere (app.go: TestConfig.BroadcastCallback on sigAgg) are outside it",
         "simulation, second mode (kinds real / real-staleprep): the consensus stub is replaced by the real core/consensus/qbft component on every honest node (qbft.NewConsensus directly, not through the consensus controller; default feature set, real timers, real time), its libp2p host is an in-memory fake controlled by the harness (delay, duplication, loss, crash, late start, an adversarial stale-PREPARE schedule); Byzantine nodes are silent in consensus; scheduler, fetcher (one different candidate per node), ParSigEx and broadcaster stay stubs; the consensus phase completes before the partial-signature phase starts",
-        "simulation, first mode: scheduler, fetcher, consensus, ParSigEx (network) and broadcaster are harness stubs; the consensus stub decides the first proposal made in the cluster and hands the same decided set to every node; messages make the protobuf round trip and pass parsigex.NewEth2Verifier as in ParSigEx.handle, except in 'garbage' scenarios which bypass it to exercise SigAgg's own verification; WithAsyncRetry is not applied",
+        "both simulation modes: the broadcaster is the REAL core/bcast Broadcaster over a recording beacon mock (its attester duties are the scenario's); the monitors run on the broadcaster's input, on AggSigDB.Store's input and on the beacon-node submissions",
+        "simulation, first mode: scheduler, fetcher, consensus and ParSigEx (network) are harness stubs; the consensus stub decides the first proposal made in the cluster and hands the same decided set to every node; messages make the protobuf round trip and pass parsigex.NewEth2Verifier as in ParSigEx.handle, except in 'garbage' scenarios which bypass it to exercise SigAgg's own verification; WithAsyncRetry is not applied",
     ]
     run_translator(R)
     R.proofs()
@@ -187,8 +188,11 @@ def main():
         complete = [r for r in over if not r.get("aborted") and (r["stats"] or {}).get("aggregates", 0) >= 2 * r["vals"]]
         go_fired = sum(1 for r in complete if any(h["key"] == "two-roots" for h in (r["hits"] or [])))
         coq_fired = sum(1 for r in complete if r["id"] in coq_over_hits)
+        reached = sum(1 for r in complete if any(h["key"] == "beacon-two-roots" for h in (r["hits"] or [])))
         R.coverage["selftest_overbound"] = {"runs": len(over), "completed": len(complete), "go_monitor_fired": go_fired, "coq_monitor_fired": coq_fired,
                                             "model_rejected": len(coq_over_rej),
+                                            "second_object_reached_beacon_node": reached,
+                                            "second_object_note": "NOTE, not a violation: with f+1 Byzantine shares the two differently-rooted objects are aggregated on two different nodes, so each node's AggSigDB gate (first object wins, sigagg stops before the broadcaster: order obligation of C01_wiring) sees only one of them and both reach the beacon node; on ONE node a second threshold set would need 2t > n distinct shares (C07_no_double_delivery) and never forms",
                                             "note": "f+1 Byzantine nodes (outside the property's assumptions): two roots ARE published by the real components; not a violation"}
         if go_fired != len(complete) or coq_fired != len(complete) or coq_over_rej:
             R.broke("selftest:a completed f+1-Byzantine scenario did not trip the monitors (go=%d coq=%d of %d completed, model rejected %d)" % (go_fired, coq_fired, len(complete), len(coq_over_rej)))
